@@ -114,6 +114,12 @@ Holds(ty, op, pa, pb) ==
                                 = AbsJet(ty, B!MulB(ty, a, b))
           [] op = "div_zf" -> AbsJet(ty, B!DivB(ty, ZeroFill(ty, a), ZeroFill(ty, b)))
                                 = AbsJet(ty, B!DivB(ty, a, b))
+          \* C09: integer powers are repeated multiplication / division (n carried in pb)
+          [] op = "powi" ->
+                LET n == pb.n
+                    pw == AbsJet(ty, B!PowiB(ty, a, n))
+                IN  IF n >= 0 THEN pw = A!PowNatA(Parts(ty), ja, n)
+                    ELSE A!MulA(pw, A!PowNatA(Parts(ty), ja, -n)) = A!ConstA(Parts(ty), P1)
           [] op = "chain_zf" -> AbsJet(ty, B!ChainB(ty, ZeroFill(ty, a), TowerSym(B!Order(ty))))
                                 = AbsJet(ty, B!ChainB(ty, a, TowerSym(B!Order(ty))))
 
@@ -135,7 +141,11 @@ PickBin  == /\ ob.k = "type"
 PickUn   == /\ ob.k = "type"
             /\ \E op \in UnOps, pa \in PresSet(ob.ty) :
                   ob' = [k |-> "ob", ty |-> ob.ty, op |-> op, pa |-> pa, pb |-> pa]
-Next == PickType \/ PickBin \/ PickUn
+PowNs == {-4, -3, -2, -1, 0, 1, 2, 3, 4, 5, 6}
+PickPow  == /\ ob.k = "type"
+            /\ \E n \in PowNs, pa \in PresSet(ob.ty) :
+                  ob' = [k |-> "ob", ty |-> ob.ty, op |-> "powi", pa |-> pa, pb |-> [n |-> n]]
+Next == PickType \/ PickBin \/ PickUn \/ PickPow
 Spec == Init /\ [][Next]_ob
 
 Refines == ob.k = "ob" => Holds(ob.ty, ob.op, ob.pa, ob.pb)
